@@ -90,6 +90,9 @@ def rand_ell(rnd, lo_invf=150.0, hi_invf=400.0):
         return 'intl24'
     if r < 0.80:
         return rnd.choice([[6300000.0, lo_invf], [6400000.0, hi_invf], [6300000.0, hi_invf], [6400000.0, lo_invf]])
+    if r < 0.84:
+        # a user-built Ellipsoid with exactly a shipped one's defining values: equal, but not the same object
+        return list(PUBLISHED_ELL[rnd.choice(['grs80', 'ans', 'wgs84', 'intl24'])])
     return [round(rnd.uniform(6.3e6, 6.4e6), rnd.choice([0, 3])), round(rnd.uniform(lo_invf, hi_invf), rnd.choice([2, 9]))]
 
 
@@ -99,6 +102,10 @@ def rand_prj(rnd):
         return 'utm'
     if r < 0.70:
         return 'isg'
+    if r < 0.76:
+        # a user-built Projection with exactly a shipped one's five values: equal, but not the same object.  It is an
+        # ordinary user-defined projection (zones numbered 1.. from the initial central meridian), also for ISG's values.
+        return list(PUBLISHED_PRJ[rnd.choice(['utm', 'isg'])])
     zw = rnd.choice([1.0, 2.0, 3.0, 6.0])
     if zw == 6.0:
         icm = -177.0
